@@ -515,3 +515,51 @@ def gen_centroid_table():
            f'def originAdditions : Nat := {adds_origin}\n\n'
            'end PhotVerif.Gen.CentroidTable\n')
     return 'CentroidTable.lean', src, out
+
+
+# ------------------------------------------------------------------ make_model_image loop skeleton
+def gen_render_table():
+    path = os.path.join(REPO, 'photutils/datasets/images.py')
+    src = open(path).read()
+    tree = ast.parse(src)
+    fn = next(n for n in tree.body if isinstance(n, ast.FunctionDef) and n.name == 'make_model_image')
+    loop = next((x for x in fn.body if isinstance(x, ast.For) and 'enumerate' in ast.unparse(x.iter)), None)
+    if loop is None:
+        raise Unsupported('make_model_image: row loop not found')
+    units_if = None
+    accum = None
+    skips = False
+    for x in ast.walk(loop):
+        if isinstance(x, ast.If) and any(isinstance(b, ast.AugAssign) and isinstance(b.op, ast.LShift) for b in x.body):
+            units_if = x
+        if isinstance(x, ast.AugAssign) and isinstance(x.op, ast.Add) and isinstance(x.target, ast.Subscript) \
+                and isinstance(x.target.value, ast.Name) and x.target.value.id == 'image':
+            accum = x
+        if isinstance(x, ast.ExceptHandler) and x.type is not None and 'NoOverlapError' in ast.unparse(x.type):
+            skips = any(isinstance(b, ast.Continue) for b in x.body)
+    if units_if is None or accum is None:
+        raise Unsupported('make_model_image: units / accumulation statements not found')
+    units_mentions_index = any(isinstance(n, ast.Name) and n.id == 'i' for n in ast.walk(units_if.test))
+    rhs = ast.unparse(accum.value)
+    adds_bkg = 'local_bkg' in rhs and 'subimg' in rhs
+    trim = any(isinstance(c, ast.Call) and getattr(c.func, 'id', '') == 'overlap_slices'
+               and any(k.arg == 'mode' and isinstance(k.value, ast.Constant) and k.value.value == 'trim' for k in c.keywords)
+               for c in ast.walk(loop))
+    model_copied = any(isinstance(st, ast.Assign) and isinstance(st.value, ast.Call) and isinstance(st.value.func, ast.Attribute)
+                       and st.value.func.attr == 'copy' and isinstance(st.targets[0], ast.Name) and st.targets[0].id == 'model'
+                       for st in fn.body)
+    b = lambda v: 'true' if v else 'false'
+    out = ('/- GENERATED by tools/extract_tables.py from photutils/datasets/images.py (make_model_image loop) '
+           f'(sha256/16 {sha(src)}). DO NOT EDIT. -/\n'
+           'import PhotVerif.Model.Prelude\nnamespace PhotVerif.Gen.RenderTable\n\n'
+           f'/-- the statement attaching units is conditioned on the row index -/\n'
+           f'def unitsDependOnRowIndex : Bool := {b(units_mentions_index)}\n'
+           f'/-- `image[slc] += subimg + local_bkg[i]` -/\n'
+           f'def accumulatesStampPlusBkg : Bool := {b(adds_bkg)}\n'
+           f'/-- rows raising NoOverlapError are skipped with `continue` -/\n'
+           f'def skipsNoOverlap : Bool := {b(skips)}\n'
+           f'def usesTrimMode : Bool := {b(trim)}\n'
+           f'/-- the input model is copied before its parameters are set -/\n'
+           f'def modelCopied : Bool := {b(model_copied)}\n\n'
+           'end PhotVerif.Gen.RenderTable\n')
+    return 'RenderTable.lean', src, out
